@@ -17,7 +17,7 @@ class Prop(PropBase):
             'pipelinerunner.run (+pyDir, +loader), pype child at depth 1-3 with default / '
             'resolveFromParent true,false / explicit parent (abs, relative, dotted, null, empty, '
             'missing, = cwd) / loader (custom, same, null) / pyDir, caller inside cwd, chains through '
-            'custom loaders with parent or loader cascading switched off}; plus cache-key collision, '
+            'custom loaders with parent or loader cascading switched off}; plus (corpus) the former cache-key collision layouts, '
             'configured pipelines_subdir, shared-module-name scenarios; thorough adds random layouts. '
             'Every pipeline file records its own location and PipelineInfo through a probe step and '
             'runs a custom step module placed next to it. One fresh subprocess per layout (cwd = '
